@@ -34,6 +34,9 @@ cfg_if::cfg_if! {
             static CACHE: Mutex<Option<HashMap<Vec<u8>, &'static [u8]>>> =
                 Mutex::new(None);
 
+            #[cfg(feature = "verif")]
+            let _region = crate::verif::sched::enter("transcript.label_cache");
+
             let mut guard =
                 CACHE.lock().unwrap_or_else(|e| e.into_inner());
             let map = guard.get_or_insert_with(HashMap::new);
